@@ -957,6 +957,28 @@ func c02DirectedOther() [][4]interface{} {
 	} {
 		add("docx", "directed:"+name, ".docx", writeZip(replaceMember(mkDOCXSimple([]string{"x"}), "word/document.xml", docHead+body+docTail)))
 	}
+	// DOCX: style inheritance that loops (on the starting style, beside it, on itself)
+	for name, styles := range map[string]string{
+		"style-cycle-beside": `<w:style w:type="paragraph" w:styleId="Para"><w:basedOn w:val="Base"/></w:style><w:style w:type="paragraph" w:styleId="Base"><w:basedOn w:val="Mid"/></w:style><w:style w:type="paragraph" w:styleId="Mid"><w:basedOn w:val="Base"/></w:style>`,
+		"style-cycle-self":   `<w:style w:type="paragraph" w:styleId="Para"><w:basedOn w:val="Loop"/></w:style><w:style w:type="paragraph" w:styleId="Loop"><w:basedOn w:val="Loop"/></w:style>`,
+		"style-cycle-start":  `<w:style w:type="paragraph" w:styleId="Para"><w:basedOn w:val="B"/></w:style><w:style w:type="paragraph" w:styleId="B"><w:basedOn w:val="Para"/></w:style>`,
+		"style-chain-3000": func() string {
+			var b strings.Builder
+			b.WriteString(`<w:style w:type="paragraph" w:styleId="Para"><w:basedOn w:val="S0"/></w:style>`)
+			for i := 0; i < 3000; i++ {
+				fmt.Fprintf(&b, `<w:style w:type="paragraph" w:styleId="S%d"><w:basedOn w:val="S%d"/></w:style>`, i, i+1)
+			}
+			return b.String()
+		}(),
+		"style-heading-cycle": `<w:style w:type="paragraph" w:styleId="Para"><w:basedOn w:val="Heading1"/></w:style><w:style w:type="paragraph" w:styleId="Heading1"><w:name w:val="heading 1"/><w:basedOn w:val="Heading2"/></w:style><w:style w:type="paragraph" w:styleId="Heading2"><w:name w:val="heading 2"/><w:basedOn w:val="Heading1"/></w:style>`,
+	} {
+		ms := mkDOCXSimple([]string{"x"})
+		body := docHead + `<w:p><w:pPr><w:pStyle w:val="Para"/></w:pPr><w:r><w:t>styled paragraph</w:t></w:r></w:p><w:p><w:pPr><w:pStyle w:val="Mid"/></w:pPr><w:r><w:t>second</w:t></w:r></w:p>` + docTail
+		ms = replaceMember(ms, "word/document.xml", body)
+		ms = append(ms, zipMember{Name: "word/styles.xml", Data: []byte(`<?xml version="1.0" encoding="UTF-8" standalone="yes"?><w:styles xmlns:w="http://schemas.openxmlformats.org/wordprocessingml/2006/main">` + styles + `</w:styles>`)})
+		ms = append(ms, zipMember{Name: "word/_rels/document.xml.rels", Data: []byte(`<?xml version="1.0" encoding="UTF-8"?><Relationships xmlns="http://schemas.openxmlformats.org/package/2006/relationships"><Relationship Id="rIdS" Type="http://schemas.openxmlformats.org/officeDocument/2006/relationships/styles" Target="styles.xml"/></Relationships>`)})
+		add("docx", "directed:"+name, ".docx", writeZip(ms))
+	}
 	// XLSX
 	sheet := func(body string) string {
 		return `<?xml version="1.0" encoding="UTF-8" standalone="yes"?><worksheet xmlns="http://schemas.openxmlformats.org/spreadsheetml/2006/main">` + body + `</worksheet>`
@@ -969,13 +991,15 @@ func c02DirectedOther() [][4]interface{} {
 		}
 	}
 	for name, body := range map[string]string{
-		"far-cell":        `<sheetData><row r="1048576"><c r="XFD1048576" t="inlineStr"><is><t>x</t></is></c></row></sheetData>`,
-		"row-number":      `<sheetData><row r="2147483647"><c r="A2147483647" t="inlineStr"><is><t>x</t></is></c></row><row r="-4"><c r="A-4"><v>1</v></c></row></sheetData>`,
-		"column-letters":  `<sheetData><row r="1"><c r="ZZZZZZZZZZZZZZZZZZZZ1" t="inlineStr"><is><t>x</t></is></c><c r="1A"><v>2</v></c><c r=""><v>3</v></c></row></sheetData>`,
-		"shared-index":    `<sheetData><row r="1"><c r="A1" t="s"><v>2147483647</v></c><c r="B1" t="s"><v>-1</v></c><c r="C1" t="s"><v>x</v></c></row></sheetData>`,
-		"style-index":     `<sheetData><row r="1"><c r="A1" s="2147483647"><v>1</v></c><c r="B1" s="-1"><v>2</v></c></row></sheetData>`,
-		"merge-whole":     `<sheetData><row r="1"><c r="A1"><v>1</v></c></row></sheetData><mergeCells><mergeCell ref="A1:XFD1048576"/><mergeCell ref="ZZZ9999999999:A1"/><mergeCell ref=":"/></mergeCells>`,
-		"many-rows-dense": `<sheetData>` + strings.Repeat(`<row r="1"><c r="A1"><v>1</v></c></row>`, 50000) + `</sheetData>`,
+		"far-cell":          `<sheetData><row r="1048576"><c r="XFD1048576" t="inlineStr"><is><t>x</t></is></c></row></sheetData>`,
+		"row-number":        `<sheetData><row r="2147483647"><c r="A2147483647" t="inlineStr"><is><t>x</t></is></c></row><row r="-4"><c r="A-4"><v>1</v></c></row></sheetData>`,
+		"column-letters":    `<sheetData><row r="1"><c r="ZZZZZZZZZZZZZZZZZZZZ1" t="inlineStr"><is><t>x</t></is></c><c r="1A"><v>2</v></c><c r=""><v>3</v></c></row></sheetData>`,
+		"shared-index":      `<sheetData><row r="1"><c r="A1" t="s"><v>2147483647</v></c><c r="B1" t="s"><v>-1</v></c><c r="C1" t="s"><v>x</v></c></row></sheetData>`,
+		"style-index":       `<sheetData><row r="1"><c r="A1" s="2147483647"><v>1</v></c><c r="B1" s="-1"><v>2</v></c></row></sheetData>`,
+		"merge-whole":       `<sheetData><row r="1"><c r="A1"><v>1</v></c></row></sheetData><mergeCells><mergeCell ref="A1:XFD1048576"/><mergeCell ref="ZZZ9999999999:A1"/><mergeCell ref=":"/></mergeCells>`,
+		"many-rows-dense":   `<sheetData>` + strings.Repeat(`<row r="1"><c r="A1"><v>1</v></c></row>`, 50000) + `</sheetData>`,
+		"merge-beside-grid": `<sheetData><row r="1"><c r="A1"><v>1</v></c><c r="B1"><v>2</v></c></row><row r="3"><c r="A3"><v>3</v></c><c r="B3"><v>4</v></c></row></sheetData><mergeCells><mergeCell ref="D1:E2"/><mergeCell ref="C3:C5"/><mergeCell ref="XFD1:XFD2"/><mergeCell ref="B3:D9"/><mergeCell ref="A9:B10"/></mergeCells>`,
+		"merge-reversed":    `<sheetData><row r="2"><c r="B2"><v>1</v></c></row></sheetData><mergeCells><mergeCell ref="C3:A1"/><mergeCell ref="B2:B2"/><mergeCell ref="A1"/><mergeCell ref="A0:B0"/></mergeCells>`,
 	} {
 		add("xlsx", "directed:"+name, ".xlsx", writeZip(replaceMember(xl, sheetName, sheet(body))))
 	}
